@@ -81,6 +81,7 @@ type World struct {
 	Clients []*Client
 
 	ledger       *ledger
+	symOf        map[string]string // session uuid -> symbolic session name (differential checks)
 	lastActivity time.Duration // last non-sync-clock traffic in either direction
 	gauge0       gauges
 }
@@ -111,7 +112,7 @@ func NewWorld(cfg WorldCfg) *World {
 	if cfg.Summary == 0 {
 		cfg.Summary = time.Minute
 	}
-	w := &World{cfg: cfg, ledger: newLedger()}
+	w := &World{cfg: cfg, ledger: newLedger(), symOf: map[string]string{}}
 	w.sim = simrt.New(simrt.Config{
 		Seed: cfg.Seed, Policy: cfg.Policy, Sticky: cfg.Sticky, PCTDepth: cfg.PCTDepth, PCTLen: cfg.PCTLen,
 		StallProb: cfg.StallProb, StallMax: cfg.StallMax, SortedMaps: cfg.SortedMaps, SelectOrder: cfg.SelectOrder, Trace: cfg.Trace, MaxSteps: cfg.MaxSteps,
